@@ -107,11 +107,24 @@ def _check_image(ctx, d, ds, fr, reqs, pending):
     if not np.array_equal(ref.astype(np.int64), np.asarray(fr).astype(np.int64)):
         ctx.note(f'generator/pydicom mismatch for {d}; skipped')
         return
+    # a real file on disk for a share of the images: the lazy reader opens/closes a PATH itself (bytes and file objects are
+    # never closed by it), so state left behind by a refused request only shows there
+    tmp_path = None
+    if d['idx'] % 3 == 0:
+        import tempfile
+        fd, tmp_path = tempfile.mkstemp(suffix='.dcm', prefix='hdv_c05_')
+        with os.fdopen(fd, 'wb') as fh:
+            fh.write(blob)
+        import atexit
+        atexit.register(lambda p=tmp_path: os.path.exists(p) and os.unlink(p))
     paths = {
         'memory': lambda: hd.Image.from_dataset(pydicom.dcmread(io.BytesIO(blob)), copy=False),
         'eager': lambda: hd.imread(io.BytesIO(blob)),
         'lazy': lambda: hd.imread(io.BytesIO(blob), lazy_frame_retrieval=True),
     }
+    if tmp_path is not None:
+        paths['lazy-path'] = lambda: hd.imread(tmp_path, lazy_frame_retrieval=True)
+        paths['eager-path'] = lambda: hd.imread(tmp_path)
     imgs = {}
     for name, mk in paths.items():
         st, im = _fetch(mk)
@@ -204,6 +217,14 @@ def _check_image(ctx, d, ds, fr, reqs, pending):
         st, val = _fetch(im.get_stored_frames, [1, n + 1])
         if st == 'ok':
             ctx.fail({'image': d, 'path': name, 'batch': [1, n + 1]}, 'batch accepted out-of-range number', site='get_stored_frames')
+        # ... and the object must still answer valid requests afterwards (no state left behind by the refusal)
+        for what, f in (('get_stored_frame', lambda: im.get_stored_frame(n)), ('get_stored_frames', lambda: im.get_stored_frames([n])[0]),
+                        ('get_raw_frame', lambda: im.get_raw_frame(1))):
+            st, val = _fetch(f)
+            ctx.case(path=name + '/after-refusal')
+            if st != 'ok' or (what != 'get_raw_frame' and not np.array_equal(np.asarray(val).astype(np.int64), ref[n - 1].astype(np.int64))):
+                ctx.fail({'image': d, 'path': name, 'after': 'refused batch [1, n+1]', 'call': what},
+                         f'valid request after a refused one: {val if st != "ok" else "wrong frame"}', site=what + '/after-refusal')
         # ---- the same requests once the whole pixel array is cached on the object (a separate code path)
         st, whole = _fetch(lambda: im.pixel_array)
         if st != 'ok' or not np.array_equal(np.asarray(whole).reshape(ref.shape).astype(np.int64), ref.astype(np.int64)):
